@@ -815,6 +815,11 @@ def run(args):
                    "expressions) of degree <= 3 over 1-4 fluents from 6 vocabularies (lifted and grounded, dashes, underscores, digits), "
                    "integer / short-decimal / near-integer (k +- 1e-5) / rounding-boundary / tiny coefficients, all comparison operators, 0-2 "
                    "linear equalities usable for elimination (also chains: the second eliminates what the first brings in, either order), "
+                   "equalities of every SHAPE around the elimination decision (G.EQ_SHAPES: sum / difference / reversed / plain / scaled / a "
+                   "number first / the sum inside a product / nested differences; right side 0, 0.0, -0.0, small, large, a function) next to "
+                   "inequalities in which the eliminated operand occurs alone / in the same or the other pattern / swapped / not at all and "
+                   "conditions in the style of the shipped domains - as a grid (every shape x right side with 2 companions in quick, all 6 "
+                   "in thorough) and at random inside pre / print / str / nested / or, "
                    "duplicates and identities, digits 0..6 with 0 and 1 a third of the time (>= 3 when a divisor is not constant: the checker "
                    "has no rounding tolerance there); inputs that are undefined on the whole solution set of their own linear equalities (a "
                    "divisor forced to zero) are not generated.  Plus the pinned tests' inputs, the witnesses of every repaired defect, "
@@ -822,7 +827,11 @@ def run(args):
                    "print) and Precondition.print on the shipped domains' OWN precondition nodes.  Each output is validated in Coq by "
                    "check_pre / check_under / check_expr / check_or and at 3-4 rational points on the solution set of the input's linear "
                    "equalities (exact solve).  Every convert_expr_to_pddl / transform_expression call made by the library is replayed on the "
-                   "Coq glue model (deduplicated) and its symbol table checked for the shape C13_glue_readback assumes.  Non-trivial: the "
+                   "Coq glue model (deduplicated), its symbol table checked for the shape C13_glue_readback assumes and its tree for the shape "
+                   "C13_glue assumes (wf_tree).  Every call of _simplify_numeric_preconditions is replayed on the model of the elimination "
+                   "decision (Model/Elimination.v: what extract_eliminated_expressions returned for each equality, the assumptions each "
+                   "simplify_inequality call received, the order of the calls, the returned list) and every extracted assumption must follow "
+                   "from the input equalities.  Non-trivial: the "
                    "input has >= 2 arithmetic operators or several conditions (glue: the tree is not a single atom); distinct by input hash.")
     cov["samples"] = [c["input"] for c in cases[:2]] + [c["input"] for c in e2e_sample(cases)]
     cov["explanation"] = ("translation validation: Coq theorem C13_checker_sound (and C13_inequality_sound, C13_expression_sound, C13_disjunction_sound) makes each "
